@@ -20,7 +20,7 @@ Read line by line from the code at /repo HEAD. One event = one atomic action of 
   leaves them in `lockq` and `emit` pops them; while `lockq` is non-empty the container lock is held.
 * retry timers: `fire` (the runtime starts the `AfterFunc` goroutine) and `timerCS` (its critical section);
   `Stop()` only prevents `fire`.
-* `env cancel c` cancels root context `c`; `env cancelw a` cancels the context handed to `WaitExited` call `a`.
+* `env cancel c` announces the cancellation of root context `c` (logged before the call), `envDo c` performs it; `env cancelw a` cancels the context handed to `WaitExited` call `a`.
 
 Numbers: root contexts are `1,2,…` (`0` = nil context), function tags `1,2,…` (`0` = nil routine), state
 values `1,2,…` (`0` = the empty state), errors `some 0` = `context.Canceled`, `some e` = error `e`, `none` = nil.
@@ -136,6 +136,7 @@ inductive Ev where
   | wake (a : Nat)
   | wctx (a : Nat)
   | envCancel (c : Nat)
+  | envDo (c : Nat)
   | envCancelW (a : Nat)
   | giveUp (n : Nat)
   | drained (n : Nat)
@@ -155,6 +156,7 @@ structure St where
   cfg : Option Cfg := none
   ctx : Nat := 0
   croots : List Nat := []          -- cancelled root contexts
+  pcancel : List Nat := []         -- root contexts whose cancellation has been announced (logged) but not yet performed
   routine : Option Nat := none
   recs : List Rec := []
   insts : List Inst := []
@@ -470,7 +472,10 @@ def stepI (s : St) : Ev → Option St
        | .parked _ => if s.wcx.contains a then some (setCall s a { c with st := .wcancel }) else none
        | _ => none)
     | none => none
-  | .envCancel c => if c != 0 then some { s with croots := c :: s.croots } else none
+  -- the harness logs `env cancel c` *before* it calls the cancel function: the effect follows (`envDo`)
+  | .envCancel c => if c != 0 then some { s with pcancel := c :: s.pcancel } else none
+  | .envDo c =>
+    if s.pcancel.contains c then some { s with pcancel := s.pcancel.erase c, croots := c :: s.croots } else none
   | .envCancelW a =>
     match s.calls[a]? with
     | some c => (match c.op with
@@ -582,7 +587,8 @@ def cands (s : St) : List Ev :=
      | some x => if predClosed s x then [Ev.giveUp n] else []
      | none => []) ++
     [.drained n, .closeExit n] ++ (if shadowed s n then [] else [Ev.record n false, .record n true])) ++
-  ((List.range s.timers.length).flatMap fun t => [.fire t, .timerCS t])
+  ((List.range s.timers.length).flatMap fun t => [.fire t, .timerCS t]) ++
+  s.pcancel.map Ev.envDo
 
 def pendingIds (s : St) : List Nat :=
   (List.range s.calls.length).filter fun a =>
